@@ -165,15 +165,20 @@ def _case(draw):
     C = draw(st.one_of(st.integers(1, 6), st.integers(1, 40)))
     n = draw(st.one_of(st.integers(1, 4), st.integers(1, 30)))
     wavs = [draw(_wav(T, C)) for _ in range(n)]
-    k = draw(st.sampled_from([5, 5, 5, 5, 1, 2, 3, 4, 6, 7, 8, 9]))
-    fs = draw(st.sampled_from([FS_DEFAULT] * 5 + FS_OTHER))
-    forms = FORMS_ANY + FORMS_ANY[:1] + (FORMS_DEFAULT if k == 5 and fs == FS_DEFAULT else ())
+    # the call form first: the all-defaults forms fix k = 5 and fs = 30000
+    form = draw(st.sampled_from(FORMS_ANY + ("kw", "kw") + FORMS_DEFAULT))
+    if form in FORMS_DEFAULT:
+        k, fs = 5, FS_DEFAULT
+    else:
+        k = draw(st.sampled_from([5, 5, 5, 5, 1, 2, 3, 4, 6, 7, 8, 9]))
+        fs = draw(st.sampled_from([FS_DEFAULT] * 4 + FS_OTHER))
+    forms = FORMS_ANY + (FORMS_DEFAULT if k == 5 and fs == FS_DEFAULT else ())
     dtype = draw(st.sampled_from(["f64", "f64", "f64", "f64", "f64", "f64", "f32", "f32", "f32", "i32"]))
     return {"T": T, "C": C, "k": k,
             "seed": draw(st.integers(0, 2 ** 32 - 1)), "f32": dtype == "f32",
             "scale_exp": draw(st.sampled_from([-6, -3, -1, 1, 2, 5])), "split": draw(st.integers(0, 30)),
             "laws": True, "wavs": wavs,
-            "dtype": dtype, "fs": fs, "form": draw(st.sampled_from(forms)), "form2": draw(st.sampled_from(forms)),
+            "dtype": dtype, "fs": fs, "form": form, "form2": draw(st.sampled_from(forms)),
             "layout": draw(st.sampled_from(LAYOUTS + ("C",))), "law_layout": draw(st.sampled_from(LAYOUTS + ("C",))),
             "again": draw(st.sampled_from([True, True, True, False])),
             "bperm": draw(st.sampled_from([True, False, False]))}
